@@ -22,6 +22,11 @@ def main():
     if os.environ.get("PYTHONHASHSEED") != "0":
         os.environ["PYTHONHASHSEED"] = "0"
         os.execv(sys.executable, [sys.executable] + sys.argv)
+    # testing aid (never used by the registered commands): VERIF_REPO=<worktree> makes every worker import pandera from that
+    # tree instead of /repo, VERIF_OUT=<dir> redirects evidence/ and replays/ so /verif's committed evidence is untouched
+    if os.environ.get("VERIF_REPO"):
+        os.environ["PYTHONPATH"] = os.environ["VERIF_REPO"] + os.pathsep + os.environ.get("PYTHONPATH", "")
+        sys.path.insert(0, os.environ["VERIF_REPO"])
     os.environ.setdefault("PANDERA_VERIF", "1")
     os.environ.setdefault("POLARS_MAX_THREADS", "1")
     os.environ.setdefault("OMP_NUM_THREADS", "1")
